@@ -20,23 +20,24 @@ const modPath = "github.com/mholt/caddy-l4"
 
 // Ctx is the loaded, type-checked and SSA-converted program.
 type Ctx struct {
-	provers    map[*ssa.Function]*prover
-	routerMemo map[[2]int][]rPath
-	ipDepth    int
-	retCases   map[*ssa.Function][]retCase
-	retQs      map[*ssa.Function][]quantity
-	retOK      map[*ssa.Function]bool
-	callSites  map[*ssa.Function][]ssa.CallInstruction
-	fnEscapes  map[*ssa.Function]bool
-	Repo       string
-	Tier       string
-	Fset       *token.FileSet
-	Pkgs       []*packages.Package // module packages (non-test files)
-	ByPath     map[string]*packages.Package
-	Prog       *ssa.Program
-	SSA        map[string]*ssa.Package // by import path (module packages only)
-	Funcs      []*ssa.Function         // every source function of the module incl. closures
-	AllDeps    bool                    // dependencies loaded with syntax (thorough)
+	provers      map[*ssa.Function]*prover
+	routerMemo   map[[2]int][]rPath
+	ipDepth      int
+	retCases     map[*ssa.Function][]retCase
+	retQs        map[*ssa.Function][]quantity
+	retOK        map[*ssa.Function]bool
+	callSites    map[*ssa.Function][]ssa.CallInstruction
+	fnEscapes    map[*ssa.Function]bool
+	atomicParams map[*ssa.Function]map[int][]string
+	Repo         string
+	Tier         string
+	Fset         *token.FileSet
+	Pkgs         []*packages.Package // module packages (non-test files)
+	ByPath       map[string]*packages.Package
+	Prog         *ssa.Program
+	SSA          map[string]*ssa.Package // by import path (module packages only)
+	Funcs        []*ssa.Function         // every source function of the module incl. closures
+	AllDeps      bool                    // dependencies loaded with syntax (thorough)
 
 	perConn map[*ssa.Function]bool // lazily computed
 }
